@@ -19,8 +19,11 @@ Proof. exact stats_interleaved_is_batch. Qed.
 Print Assumptions c17_stats_fold.
 
 (* What the statistics of a list of results are, metric by metric.
-   [counted k rs] = the values of metric k, in order, up to (excluding) the first
-   value that is not a number (the latch of MetricsStatistics.add).
+   [counted k rs] = ALL numbers among the values of metric k in rs when the first value
+   of the metric is a number (non-numbers in between are skipped); empty when the first
+   value is not a number ("the type of the first value of a metric defines its type",
+   MetricsStatistics after the repair of finding F-C17-3; before it, numbers following
+   the first non-number were ignored). See c17_counted_* below.
    count = number of results; min/max/sum = Python folds over the counted values. *)
 Theorem c17_stats :
   forall (k : key) (rs : list dict),
@@ -30,6 +33,22 @@ Theorem c17_stats :
     aget key_eqb k (st_sum (stats_of rs)) = fold_opt num_add (counted k rs) None (Fin 0).
 Proof. exact stats_of_closed. Qed.
 Print Assumptions c17_stats.
+
+(* which values count *)
+Theorem c17_counted_all_numeric :
+  forall k rs x0 r,
+    flat_map (vals_of k) rs = VNum x0 :: r ->
+    counted k rs = nums (flat_map (vals_of k) rs) /\
+    forall x, In x (counted k rs) <-> In (VNum x) (flat_map (vals_of k) rs).
+Proof.
+  intros k rs x0 r H. split; [exact (counted_first_numeric k rs x0 r H) | intro x; exact (counted_in_numeric k rs x0 r x H)].
+Qed.
+Print Assumptions c17_counted_all_numeric.
+
+Theorem c17_counted_non_numeric_first :
+  forall k rs t r, flat_map (vals_of k) rs = VTok t :: r -> counted k rs = [].
+Proof. exact counted_first_non_numeric. Qed.
+Print Assumptions c17_counted_non_numeric_first.
 
 (* ... and their mathematical reading, NaN and +-inf included: the minimum is never
    NaN, is one of the counted values (or inf when all of them are NaN) and no
@@ -135,6 +154,19 @@ Theorem c17_best_tuner_finite :
                             match m with Min => q <= q' | Max => q' <= q end.
 Proof. exact print_best_finite. Qed.
 Print Assumptions c17_best_tuner_finite.
+
+(* over ALL numeric values handed to the loop: no number reported for the metric by any
+   trial whose first value of the metric is a number is strictly better than the
+   reported value (numbers after a non-numeric value included) *)
+Theorem c17_best_tuner_all_numeric :
+  forall history metric m t v,
+    print_best (ts_run history) metric m = Some (t, v) ->
+    forall t' x0 r x,
+      flat_map (vals_of metric) (of_trial t' (handed history)) = VNum x0 :: r ->
+      In (VNum x) (flat_map (vals_of metric) (of_trial t' (handed history))) ->
+      better m x v = false.
+Proof. exact print_best_all_numeric. Qed.
+Print Assumptions c17_best_tuner_all_numeric.
 
 (* Tuner.best_config = metric_name_mode, then print_best_metric_found, then the
    backend's current configuration of the reported trial *)
@@ -245,10 +277,12 @@ Example c17_example :
   let r (x : value) : dict := [(loss, x)] in
   let hist := [ ([0%Z], []); ([1%Z], []); ([2%Z], []);
                 ([0%Z; 1%Z], [(0%Z, r (VNum (Fin 1))); (1%Z, r (VNum NaN)); (1%Z, r (VNum (Fin (1#2))))]);
-                ([0%Z], [(0%Z, r (VNum (Fin (1#2)))); (0%Z, r (VTok 7)); (0%Z, r (VNum (Fin 0)))]) ] in
-  print_best (ts_run hist) loss Min = Some (0%Z, Fin (1#2)) /\
+                ([0%Z], [(0%Z, r (VNum (Fin (1#2)))); (0%Z, r (VTok 7)); (0%Z, r (VNum (Fin 0)))]);
+                ([2%Z], [(2%Z, r (VTok 7)); (2%Z, r (VNum (Fin (-5))))]) ] in
+  (* trial 0: the 0 after the non-number counts; trial 2: first value not a number, nothing counts *)
+  print_best (ts_run hist) loss Min = Some (0%Z, Fin 0) /\
   print_best (ts_run hist) loss Max = Some (0%Z, Fin 1) /\
-  st_count (ts_overall (ts_run hist)) = 6%nat /\
+  st_count (ts_overall (ts_run hist)) = 8%nat /\
   aget key_eqb loss (st_sum (ts_overall (ts_run hist))) = Some NaN /\
   let e := {| ev_trial := 1; ev_status := 0; ev_result := r (VNum NaN); ev_decision := 1;
               ev_config := [(0%nat, VNum (Fin (1#10)))]; ev_clock := 3; ev_fire := false |} in
